@@ -81,6 +81,8 @@ package gohbase
 //@   loop 1 invariant wfcUnretry(rpcs, results, rpcToRes, i, unretryableError)
 //@   ensures[C07] wfcUnretry2(rpcs, results, rpcToRes, retryables, len(rpcs), unretryableError || ghostat("ctxdone", ctx) == 1)
 //@   loop 1 invariant wfcUnretry2(rpcs, results, rpcToRes, retryables, i, unretryableError)
+// a "retry later" answer anywhere in the group asks for a wait before the next round, whatever comes after it (C17)
+//@   loop 1 invariant[C17] forall(k, 0 <= k && k < i && typeis(results[rpcToRes[rpcs[k]]].Error, "region.RetryableError"), shouldBackoff)
 // every result of one of the three retry classes - connection dead, region not served here, server asks to retry - puts
 // its call on the retry list (C04: a batch survives the loss of a server or the move of a region like a single request does)
 //@   loop 1 invariant[C04,C12] forall(k, 0 <= k && k < i && retryClass(results[rpcToRes[rpcs[k]]].Error), ghostat("retrymark", rpcs[k]) == ghost("round"))
@@ -230,6 +232,10 @@ package gohbase
 //@   loop "for" step[C07] forall(j, 0 <= j && j < len(res) && athead("for", res[j].Error) == nil, res[j].Error == nil && res[j].Msg == athead("for", res[j].Msg))
 //@   at call findClients#1 ghost round == ghost("round") + 1
 //@   loop "for i, rpc := range batch"#2 invariant[C07] len(res) == len(old(batch)) && sbFrame(res, athead("for", batch), rpcToRes, len(res)) && sbOwn(res, old(batch), len(res))
+// each group is handed to its connection as one unit, in one queue operation, under the batch's context (C12): queued call
+// by call, a group can be split across multi-requests and the calls of a region no longer reach the server as one ordered list
+//@   at call QueueBatch#1 assert[C12] arg0 == ctx && sameslice(arg1, rpcs)
+//@   loop "for client, rpcs := range rpcByClient" invariant[C12] ghost("queued") == athead("for", ghost("queued")) + len(cAndRs)
 //@   loop "for client, rpcs := range rpcByClient" invariant carOK(cAndRs, rpcByClient) && forall(t, 0 <= t && t < len(cAndRs), visited(cAndRs[t].client))
 //@   loop "for client, rpcs := range rpcByClient" invariant forall(rc, visited(rc) ==> exists(t, 0 <= t && t < len(cAndRs) && cAndRs[t].client == rc))
 //@   loop "for _, cAndR := range cAndRs" invariant len(res) == len(old(batch)) && marksBelow()
@@ -370,6 +376,11 @@ package gohbase
 //@   panics never[C01]
 //@   ensures[C01] r2 == nil ==> routes(r0, table, key)
 //@   ensures[C09] r2 == nil ==> !was(allocated(r0)) && ghostat("unavail", r0) == 0 && r0 != c.adminRegionInfo && r0 != c.metaRegionInfo
+// the lookup is a reversed one-row scan of hbase:meta from the search key down to the table's own first possible row (the
+// bare table name): with no stop row it would run on into the rows of the table sorting before, and an unknown table would
+// look like "entry for the wrong table" - retried for ever - instead of TableNotFound (C04: "table not found is returned
+// to the caller"; C01: never a same-prefixed or neighbouring table's region)
+//@   at call NewScanRange#1 assert[C04,C01] sameslice(arg1, metaTableName) && sameslice(arg2, metaKey) && sameslice(arg3, table)
 //@ func gohbase.(*client).metaLookupForTable
 //@   trusted "hbase:meta table scan"
 //@   modifies X.ctxdone, X.regionstate
